@@ -1577,6 +1577,29 @@ fn gen_bh_fits_after_collapse(rng: &mut Rng, cap: usize) -> Vec<u8> {
     v
 }
 
+/// A block hash whose raw length is the capacity + 1..=4 (or exactly the
+/// capacity) but whose run-collapsed length fits: one run is stretched.
+fn gen_bh_just_over(rng: &mut Rng, cap: usize) -> Vec<u8> {
+    let mut c = collapse(&gen_bh(rng, cap, false));
+    c.truncate(cap.saturating_sub(3));
+    // make sure there is a run of 3 to stretch
+    let pos = if c.is_empty() { 0 } else { rng.usize_below(c.len()) };
+    let sym = if c.is_empty() { rng.below(64) as u8 } else { c[pos] };
+    let target = cap + rng.below(5) as usize;
+    let mut v: Vec<u8> = c[..pos].to_vec();
+    // avoid merging with the neighbours
+    let rest: Vec<u8> = c[pos..].iter().copied().skip_while(|&x| x == sym).collect();
+    while v.last() == Some(&sym) {
+        v.pop();
+    }
+    let fill = target.saturating_sub(v.len() + rest.len()).max(4);
+    for _ in 0..fill {
+        v.push(sym);
+    }
+    v.extend_from_slice(&rest);
+    v
+}
+
 fn bs_text(rng: &mut Rng) -> String {
     match rng.below(14) {
         0 => "".to_string(),
@@ -1593,9 +1616,11 @@ fn bs_text(rng: &mut Rng) -> String {
 
 pub fn gen_text(rng: &mut Rng, t: usize, mutate: bool) -> Vec<u8> {
     let c2 = cap2(t);
-    let style = rng.below(10);
+    let style = rng.below(12);
     let (b1, b2) = match style {
         0 | 1 => (gen_bh_fits_after_collapse(rng, 64), gen_bh_fits_after_collapse(rng, c2)),
+        10 => (gen_bh(rng, 64, false), gen_bh_just_over(rng, c2)),
+        11 => (gen_bh_just_over(rng, 64), gen_bh(rng, c2, false)),
         2 => (gen_bh(rng, 64, true), gen_bh(rng, c2, false)),
         3 => (gen_bh(rng, 64, false), gen_bh(rng, c2, true)),
         _ => (gen_bh(rng, 64, false), gen_bh(rng, c2, false)),
